@@ -159,10 +159,17 @@ def run(ctx, arts=None):
                 if hist == () or "refused" in st:
                     continue
                 n += 1
+                guards = int(ba.side["mesh"]["user_options"].get("y_boundary_guards", 0))
+                conn = {r["myID"]: r["connections"] for r in ba.side["regions"]}
                 for rid, rec in st["regions"].items():
                     F = first["regions"][rid]
+                    # a region's end point is the X-point join, or the target: at a wall end the
+                    # boundary guard cells beyond the target continue the target spacing and move
+                    # with it by design, so the end point is the y-face between guard cells and domain
+                    ends = (guards if conn[rid]["lower"] is None else 0,
+                            -1 - (guards if conn[rid]["upper"] is None else 0))
                     for loc in ("ylow", "corners"):
-                        for j in (0, -1):
+                        for j in ends:
                             d = np.hypot(rec["Rxy"][loc][:, j] - F["Rxy"][loc][:, j], rec["Zxy"][loc][:, j] - F["Zxy"][loc][:, j])
                             dom = gu.in_domain(ba, rec["Rxy"][loc][:, j], rec["Zxy"][loc][:, j])
                             if dom.any():
@@ -170,7 +177,7 @@ def run(ctx, arts=None):
                                 if d[dom].max() > 1e-7:
                                     ctx.violation("nonorth | region end point moved by redistributePoints",
                                                   dict(history=[names[k] for k in hist], region=rec["name"], loc=loc,
-                                                       end="lower" if j == 0 else "upper", displacement=float(d[dom].max())),
+                                                       end="lower" if j >= 0 else "upper", displacement=float(d[dom].max())),
                                                   replay=dict(part="grid", history=[names[k] for k in hist]))
     ctx.add("grid_evaluations", n)
     ctx.add("grid_distinct_nontrivial", n)
